@@ -1,5 +1,6 @@
 """./check selftest determinism <C20|C09|C15> [n_seeds]
 ./check selftest scheduler      (deadlock detection, lock seam, scripted replay)
+./check selftest workload       (no C20 workload family has order-dependent sequential semantics)
 
 Every seed is executed several times -- at two worker counts, and once more in a
 launcher started under a different outer PYTHONHASHSEED (the re-exec must make it
@@ -161,6 +162,68 @@ def scheduler_tests() -> int:
     return 2 if bad else 0
 
 
+# ------------------------------------------------------------------ workload soundness
+
+
+def _compile_seq(seq):
+    import apischema
+    from dst.c20 import pool
+
+    out = []
+    for n, d in seq:
+        fn = apischema.deserialization_method if d == "d" else apischema.serialization_method
+        try:
+            fn(pool.TYPES[n])
+            out.append("ok")
+        except RecursionError:
+            out.append("RecursionError")
+        except Exception as e:
+            out.append(type(e).__name__)
+    return out
+
+
+def _family_pairs(group):
+    import apischema
+    from dst.c20 import pool
+
+    items = [(n, d) for n in pool.GROUPS[group] for d in "ds"]
+    cold = {}
+    for a in items:
+        cold[a] = _compile_seq([a])[0]
+        apischema.cache.reset()
+    bad = []
+    for a in items:
+        for b in items:
+            if a != b:
+                r = _compile_seq([a, b])
+                if r[1] != cold[b]:
+                    bad.append([a, b, r[1], cold[b]])
+            apischema.cache.reset()
+    return bad
+
+
+def workload_test() -> int:
+    """The C20 oracle is "what the call returns sequentially": within every family of the
+    workload the outcome of compiling a type must not depend on which other type of the family
+    was compiled first (apischema's sequential recursion analysis is unsound for some shapes;
+    those must not be in the workload)."""
+    from dst.c20 import pool
+
+    bad = 0
+    n = 0
+    for res in proc.pool_map(_family_pairs, sorted(pool.GROUPS)):
+        n += 1
+        if "harness_error" in res:
+            print("harness error", res["harness_error"][-300:])
+            bad += 1
+        elif res["ok"]:
+            bad += len(res["ok"])
+            print("order-dependent family", res["task"], res["ok"][:3])
+    print("workload: %d families (%d generated, gen seed %d), order-dependent ordered pairs of first uses: %d (must be 0)"
+          % (n, pool.GEN_INFO["families"], pool.GEN_SEED, bad))
+    return 2 if bad else 0
+
+
 def main(rest) -> int:
     if not rest:
         print(__doc__)
@@ -171,6 +234,8 @@ def main(rest) -> int:
         return determinism(prop, n)
     if rest[0] == "scheduler":
         return scheduler_tests()
+    if rest[0] == "workload":
+        return workload_test()
     if rest[0] == "fingerprints":
         prop, n = rest[1], int(rest[2])
         print(json.dumps(fingerprints(prop, n, proc.n_workers())))
